@@ -17,7 +17,7 @@ func init() {
 			"R2: writer/reader type agreement per key class — balance keys carry Marshal(*ESDigitalToken) (or the pause flag bytes on the system account) and are read into *ESDigitalToken; role keys carry Marshal(*ESDTRoles) and are read into *ESDTRoles; " +
 			"nonce keys carry SetUint64(n).Bytes() and are read with SetBytes. R3: zero is deleted, not stored — a marshalled balance write is cut by Value > 0 (NFT saver) resp. not(Value == 0 and properties empty) (fungible saver); with C02-R1 the stored value is " +
 			"positive. R4: entries obtained from the nonce-parametrised reader are written back under a key recomputed from the entry's own metadata nonce: the reader must relate that nonce to the requested one (KNOWN FINDING on this tree, see known_findings.json). " +
-			"R5: the hand-over appends the create role only after a search of the same list for the same constant found nothing. R3 accepts the non-empty-flag exception only under the token-level key. R6–R10 are shared obligations re-derived under this property: counter with the role (C07-R2/R3), SaveKeyValue off the protocol key space (C03-R6), no skipped element at a role removal (C03-R7), modified loaded accounts are saved, the shipped / credited entry is the holder's entry as a whole (C08-R2). Does NOT decide: the invariant on reachable states as such.",
+			"R5: the hand-over appends the create role only after a search of the same list for the same constant found nothing. R3 accepts the non-empty-flag exception only under the token-level key. R6–R10 are shared obligations re-derived under this property: counter with the role (C07-R2/R3), SaveKeyValue off the protocol key space (C03-R6), no skipped element at a role removal (C03-R7), modified loaded accounts are saved, the shipped / credited entry is the holder's entry as a whole (C08-R2). R11/R12: the counter entry is written only below ESDTNFTCreate (stored counter + 1, read from the account: C07-R1) and the hand-over (C07-R5). Does NOT decide: the invariant on reachable states as such.",
 		Trusted: []string{"C02-R1, C08-R1 (metadata attached only by create)", "A-deps"},
 		Rules:   []func(*Ctx){c15r1, c15r2, c15r3, c15r4, c15r5, c15r6, c15r7, c15r8, c15r9, c15r10, c15r11, c15r12},
 	})
